@@ -343,8 +343,15 @@ bool TypeAuditor::ViFunctionDefinition(Cursor iter) {
     }
   }
 
-  for (auto n : functionArgsID) {
-    functionArgs.emplace_back(localVars.at(n).arg);
+  for (const auto& name : functionArgsID) {
+    const auto varIter = std::find_if(
+      begin(localVars),
+      end(localVars),
+      [&](const auto& data) noexcept { return data.arg.name == name; }
+    );
+    if (varIter != end(localVars)) {
+      functionArgs.emplace_back(varIter->arg);
+    }
   }
 
   const auto type = ChildType(iter, 1);
@@ -1207,12 +1214,15 @@ bool TypeAuditor::AddLocalVariable(const std::string& name, const Typification& 
       varIter->arg.type = type;
       varIter->enabled = true;
       varIter->level = 0;
-       return true;
+      if (isArgDeclaration) {
+        functionArgsID.emplace_back(name);
+      }
+      return true;
     }
   } else {
     localVars.emplace_back(LocalData{ TypedID{name, type}, 0, 0, true });
     if (isArgDeclaration) {
-      functionArgsID.emplace_back(localVars.size() - 1U);
+      functionArgsID.emplace_back(name);
     }
     return true;
   }
